@@ -125,9 +125,12 @@ def handleTimers (j : Json) : Json :=
   let noMissed := s.procs.all (fun p =>
     s.cancelled.contains p.gen || (s.fired.map (·.1)).contains p.gen || p.due + 60000 > endT || !s.accepted.contains p.gen)
   let goPanic := (getObj? go "panic").isSome
+  -- the scenario came to an end: no request and no firing blocked for good
+  let responsive := (getObj? go "hang").isNone
   let props : List (String × Bool) :=
     [("logAccepted", sim.ok && !goPanic), ("firedOnce", firedOnce s), ("neverEarly", neverEarly s), ("neverBoth", neverBoth s),
-     ("tableIsPending", tableIsPending s), ("tableLive", tableLive s), ("noMissedFire", noMissed)]
+     ("tableIsPending", tableIsPending s), ("tableLive", tableLive s), ("noMissedFire", noMissed && responsive),
+     ("responsive", responsive)]
   let feats : List String :=
     (if evs.any (fun e => e.kind == "fire") then ["fire"] else []) ++
     (if evs.any (fun e => e.kind == "rem" && e.res == "ok") then ["cancel"] else []) ++
@@ -136,7 +139,7 @@ def handleTimers (j : Json) : Json :=
     (if evs.any (fun e => e.kind == "restart") then ["restart"] else []) ++
     (if getStr j "profile" == "race" then ["race"] else []) ++
     (if (match getObj? j "onFire" with | some (.obj m) => !m.isEmpty | _ => false) then ["handlerRequests"] else [])
-  Json.mkObj [("corr", sim.ok && !goPanic), ("prop", boolsJson props), ("why", jstrs sim.why),
+  Json.mkObj [("corr", sim.ok && !goPanic && responsive), ("prop", boolsJson props), ("why", jstrs sim.why),
               ("feat", jstrs feats), ("nontrivial", evs.any (fun e => e.kind == "fire" || e.res == "ok")),
               ("key", (Json.mkObj [("impl", (getObj? j "impl").getD .null), ("script", (getObj? j "script").getD .null),
                                    ("onFire", (getObj? j "onFire").getD .null)]).compress)]
